@@ -50,7 +50,7 @@ class Calls:
             raise Unsupported(f"enum attribute {name}")
         if isinstance(base, VExc):
             obj = getattr(base, "obj", None)
-            if obj is not None:
+            if obj is not None and not (name in ("lineno", "offset") and name not in getattr(obj, "fields", {})):
                 return self.getattr(obj, name, node, fr)
             if name == "args":
                 return VTuple(base.args)
